@@ -447,6 +447,23 @@ def _tag_and(a: Any, b: Any) -> Any:
     return z3.And(a, b)
 
 
+_INT64 = 2**63
+
+
+def _npy_of(o: Any) -> Any:
+    """'i64' / 'f64' for numpy scalars (proxy or concrete), None for Python numbers."""
+    if type(o) is SymNum or isinstance(o, SymNum):
+        return o.npy
+    if type(o).__module__ == "numpy":
+        import numpy as _np
+
+        if isinstance(o, _np.integer):
+            return "i64"
+        if isinstance(o, _np.floating):
+            return "f64"
+    return None
+
+
 class SymNum:
     """A symbolic Python number: z3 Real term + a (possibly symbolic) 'is a Python int' tag.
 
@@ -455,15 +472,23 @@ class SymNum:
     tag z3 Bool -> decided lazily, only where Python's behaviour depends on the type.
     """
 
-    __slots__ = ("z", "tag")
+    __slots__ = ("z", "tag", "npy")
 
-    def __init__(self, z: Any, tag: Any = False):
+    def __init__(self, z: Any, tag: Any = False, npy: Any = None):
         self.z = z
         self.tag = tag
+        # None: a Python number.  "i64" / "f64": a numpy scalar (what np.absolute / np.power hand back): int64 arithmetic
+        # wraps, a Python int operand beyond int64 raises OverflowError (numpy >= 2), division by zero gives inf / nan
+        # instead of raising, and isinstance(x, int) is False.  The kind is concrete on a path (the code path decides it).
+        self.npy = npy
 
     # isinstance(x, int) / isinstance(x, float) consult __class__ when type(x) does not match
     @property  # type: ignore[misc]
     def __class__(self):  # noqa: D401
+        if self.npy is not None:
+            import numpy as _np
+
+            return _np.int64 if self.npy == "i64" else _np.float64
         return int if self.is_int() else float
 
     def is_int(self) -> bool:
@@ -525,8 +550,35 @@ class SymNum:
             return NotImplemented
         oz, ot = lo
         a, b = (oz, self.z) if swap else (self.z, oz)
+        if self.npy is not None or _npy_of(o) is not None:
+            return self._np_bin(o, oz, ot, f(a, b))
         tag = _tag_and(self.tag, ot) if int_closed else False
         return SymNum(f(a, b), tag)
+
+    def _np_bin(self, o: Any, oz: Any, ot: Any, r: Any) -> "SymNum":
+        """+ - * with a numpy scalar on either side (numpy >= 2 promotion rules)."""
+        c = cur()
+        a_int = self.is_int()
+        b_int = ot if isinstance(ot, bool) else c.branch(ot)
+        if a_int and b_int:
+            for z, k in ((self.z, self.npy), (oz, _npy_of(o))):
+                if k is None and c.branch(z3.Or(z >= _INT64, z < -_INT64)):
+                    raise OverflowError("Python int too large to convert to C long")
+            if not c.branch(z3.And(r < _INT64, r >= -_INT64)):
+                k = z3.ToInt((r + _INT64) / (2 * _INT64))
+                r = r - z3.ToReal(k) * (2 * _INT64)  # int64 wraps (numpy only warns)
+            return SymNum(r, True, "i64")
+        return SymNum(r, False, "f64")
+
+    def _np_div(self, num: Any, den: Any) -> Any:
+        c = cur()
+        if c.branch(den == 0):
+            if c.branch(num > 0):
+                return float("inf")
+            if c.branch(num < 0):
+                return float("-inf")
+            return float("nan")
+        return SymNum(num / den, False, "f64")
 
     def __add__(self, o):
         return self._bin(o, lambda a, b: a + b, op="add")
@@ -547,13 +599,13 @@ class SymNum:
         return self._bin(o, lambda a, b: a * b, swap=True, op="mul")
 
     def __neg__(self):
-        return SymNum(-self.z, self.tag)
+        return SymNum(-self.z, self.tag, self.npy)
 
     def __pos__(self):
         return self
 
     def __abs__(self):
-        return SymNum(z3.If(self.z < 0, -self.z, self.z), self.tag)
+        return SymNum(z3.If(self.z < 0, -self.z, self.z), self.tag, self.npy)
 
     def _div(self, num: Any, den: Any):
         if cur().branch(den == 0):
@@ -566,6 +618,8 @@ class SymNum:
         lo = SymNum.lift(o)
         if lo is None:
             return NotImplemented
+        if self.npy is not None or _npy_of(o) is not None:
+            return self._np_div(self.z, lo[0])
         return SymNum(self._div(self.z, lo[0]), False)
 
     def __rtruediv__(self, o):
@@ -574,6 +628,8 @@ class SymNum:
         lo = SymNum.lift(o)
         if lo is None:
             return NotImplemented
+        if self.npy is not None or _npy_of(o) is not None:
+            return self._np_div(lo[0], self.z)
         return SymNum(self._div(lo[0], self.z), False)
 
     @staticmethod
@@ -584,18 +640,24 @@ class SymNum:
         lo = SymNum.lift(o)
         if lo is None:
             return NotImplemented
+        if self.npy is not None or _npy_of(o) is not None:
+            raise Unsupported("// or % with a numpy scalar")
         return SymNum(SymNum._floor(self._div(self.z, lo[0])), _tag_and(self.tag, lo[1]))
 
     def __rfloordiv__(self, o):
         lo = SymNum.lift(o)
         if lo is None:
             return NotImplemented
+        if self.npy is not None or _npy_of(o) is not None:
+            raise Unsupported("// or % with a numpy scalar")
         return SymNum(SymNum._floor(self._div(lo[0], self.z)), _tag_and(self.tag, lo[1]))
 
     def __mod__(self, o):
         lo = SymNum.lift(o)
         if lo is None:
             return NotImplemented
+        if self.npy is not None or _npy_of(o) is not None:
+            raise Unsupported("// or % with a numpy scalar")
         q = self._div(self.z, lo[0])
         return SymNum(self.z - lo[0] * SymNum._floor(q), _tag_and(self.tag, lo[1]))
 
@@ -603,6 +665,8 @@ class SymNum:
         lo = SymNum.lift(o)
         if lo is None:
             return NotImplemented
+        if self.npy is not None or _npy_of(o) is not None:
+            raise Unsupported("// or % with a numpy scalar")
         q = self._div(lo[0], self.z)
         return SymNum(lo[0] - self.z * SymNum._floor(q), _tag_and(self.tag, lo[1]))
 
@@ -612,12 +676,16 @@ class SymNum:
         lo = SymNum.lift(o)
         if lo is None:
             return NotImplemented
+        if self.npy is not None or _npy_of(o) is not None:
+            raise Unsupported("** with a numpy scalar")
         return py_pow(self.z, self.tag, lo[0], lo[1])
 
     def __rpow__(self, o, mod=None):
         lo = SymNum.lift(o)
         if lo is None:
             return NotImplemented
+        if self.npy is not None or _npy_of(o) is not None:
+            raise Unsupported("** with a numpy scalar")
         return py_pow(lo[0], lo[1], self.z, self.tag)
 
     # -- comparisons ----------------------------------------------------------------------------
